@@ -594,7 +594,8 @@ Proof.
   assert (HsPKT : sd_sorted (P ++ K ++ T)) by (rewrite EL; exact HsL).
   assert (HnzKT : Forall spec_nz (K ++ T)).
   { apply Forall_app. split; [unfold K, Lle | unfold T]; repeat apply Forall_filter; exact HnzL. }
-  assert (HspK : Forall sell_pos K) by (unfold K, Lle; repeat apply Forall_filter; exact HspL).
+  assert (HspK : Forall sell_pos (K ++ T)).
+  { apply Forall_app. split; [unfold K, Lle | unfold T]; repeat apply Forall_filter; exact HspL. }
   rewrite <- Edr in Erg. rewrite Eds, <- app_assoc in Erg.
   destruct (roundtrip_ranges regof like hs' latest rg P K T dsP B1 st1 dsK bLe stLe dsT K'
               HsPKT EP EK ET Erg El1 El2 Hnd' Hhok' Htot Hobs' HgoodKT Hdated' HK1' Hk HnzKT HspK)
